@@ -56,6 +56,57 @@ def modelChain (topic : Bytes) (delta : Nat) (a b c : OpInst) : Option String :=
         let sc := if sb == "hang" then "hang" else showOutcome rc
         some s!"{showOutcome ra} {sb} {sc}"
 
+/-- a slow link: k bytes of A's frame, then nothing until A's deadline has passed.  The model has no time: a stream
+that stalls past the deadline is a stream that ends after k bytes. -/
+def modelSlow (topic : Bytes) (k : Nat) (a b : OpInst) : Option String :=
+  match runInstL false topic a (⟨(frame 1 a.body).take k, 1, false⟩, false) with
+  | none => none
+  | some (ra, c1) =>
+    match runInstL false topic b c1 with
+    | some (rb, _) => some s!"{showOutcome ra} {showOutcome rb}"
+    | none => none
+
+/-- A gave up (an error) and the Conn is not used again — or A returned a result and B, whose own response reports no
+error, is served exactly that response -/
+def monitorSlow (impl : String) : Bool :=
+  match words impl with
+  | [ra, rb] =>
+    -- B failing with io.ErrNoProgress means it was attempted on a stream left in mid-response: a closed Conn fails
+    -- before reading anything
+    (isFailStr ra && isFailStr rb && rb != "fail:noprogress") || (isDone ra && !isFailStr ra && rb == "ok")
+  | _ => false
+
+/-- n operations in a row on one Conn -/
+def modelSeq (topic : Bytes) (xs : List OpInst) : Option String :=
+  let stream := (xs.zipIdx.map fun (x, i) => frame (i + 1) x.body).foldl (· ++ ·) []
+  let rec go (xs : List OpInst) (cl : Conn × Bool) (hung : Bool) (acc : List String) : Option (List String) :=
+    match xs with
+    | [] => some acc.reverse
+    | x :: r =>
+      if hung then go r cl true ("hang" :: acc)
+      else match runInstL false topic x cl with
+        | none => none
+        | some (o, cl') => go r cl' (showOutcome o == "hang") (showOutcome o :: acc)
+  (go xs (⟨stream, 1, false⟩, false) false []).map (" ".intercalate ·)
+
+/-- results in order: as long as nothing failed each result is acceptable for its own frame (`specJudge`) — a frame
+that is not an encoding must fail or report a broker error; once an operation failed every later one fails; nobody
+hangs -/
+def monitorSeq (xs : List OpInst) (impl : String) : Bool :=
+  let rs := words impl
+  let rec go (xs : List OpInst) (rs : List String) (dead : Bool) : Bool :=
+    match xs, rs with
+    | [], [] => true
+    | x :: xr, r :: rr =>
+      if dead then isFailStr r && go xr rr true
+      else
+        let okHere := match specJudge x r with
+          | some ok => ok && isDone r
+          | none => isFailStr r || r.startsWith "kafka:"
+        okHere && go xr rr (isFailStr r)
+    | _, _ => false
+  go xs rs false
+
 /-- two requests in flight (both written before any response), the two frames arrive back to back -/
 def modelPipe (topic : Bytes) (idA : Nat) (a b : OpInst) : Option String :=
   match runInstL true topic a (⟨frame idA a.body ++ frame (idA + 1) b.body, idA, false⟩, false) with
@@ -110,6 +161,28 @@ def step (line : String) : String :=
         | some m => s!"model={m} holds={if monitorChain impl then 1 else 0}"
         | none => "bad-op"
       | _, _, _, _, _ => "bad-args"
+    | ["c11w", t, ks, sa, ha, sb, hb] =>
+      match ofHex t, ks.toNat?, parseInst sa ha, parseInst sb hb with
+      | some topic, some k, some a, some b =>
+        match modelSlow topic k a b with
+        | some m => s!"model={m} holds={if monitorSlow impl then 1 else 0}"
+        | none => "bad-op"
+      | _, _, _, _ => "bad-args"
+    | "c11n" :: t :: ns :: rest =>
+      let rec insts (l : List String) : Option (List OpInst) :=
+        match l with
+        | [] => some []
+        | sa :: ha :: r => match parseInst sa ha, insts r with
+          | some a, some as => some (a :: as)
+          | _, _ => none
+        | _ => none
+      match ofHex t, ns.toNat?, insts rest with
+      | some topic, some n, some xs =>
+        if xs.length != n then "bad-args" else
+        match modelSeq topic xs with
+        | some m => s!"model={m} holds={if monitorSeq xs impl then 1 else 0}"
+        | none => "bad-op"
+      | _, _, _ => "bad-args"
     | ["c11p", t, ia, sa, ha, sb, hb] =>
       match ofHex t, ia.toNat?, parseInst sa ha, parseInst sb hb with
       | some topic, some idA, some a, some b =>
